@@ -118,4 +118,21 @@ example : let h : Heap := fun x => match x with
             | 0 => ⟨0, 2⟩ | 2 => ⟨0, 3⟩ | 3 => ⟨2, 4⟩ | 4 => ⟨3, 1⟩ | _ => ⟨4, 1⟩
           WF h 0 1 [2, 3, 4] ∧ WF (detach h 3) 0 1 [2, 4] := by
   refine ⟨⟨by decide, by simp [Linked]⟩, ⟨by decide, by simp [Linked, detach, setNext, setPrev]⟩⟩
+
+/-- non-vacuity of `Rep`: a two-node pointer-level cache whose index, payloads and links agree -/
+example : Rep ({ cap := 3, heap := fun x => match x with | 0 => ⟨0, 5⟩ | 5 => ⟨0, 7⟩ | 7 => ⟨5, 1⟩ | _ => ⟨7, 1⟩,
+                 ent := fun x => if x = 5 then (1, 10) else (2, 20),
+                 idx := fun k => if k = 1 then some 5 else if k = 2 then some 7 else none,
+                 head := 0, tail := 1, len := 2 } : PLru Nat Nat) [5, 7] := by
+  refine ⟨⟨by decide, by simp [Chain.Linked]⟩, rfl, ?_, by decide⟩
+  intro k n
+  simp only [List.mem_cons, List.mem_nil_iff, or_false]
+  constructor
+  · intro h
+    split at h
+    · injection h with h; subst h; simp_all
+    · split at h
+      · injection h with h; subst h; simp_all
+      · cases h
+  · rintro ⟨h | h, hk⟩ <;> subst h <;> simp at hk <;> subst hk <;> simp
 end C03
